@@ -202,7 +202,16 @@ func (l *kvsLock) supportTimeout(ver string) {
 		ExpiresAt: cast.Ptr(time.Now().Add(l.dlp.leaseTTL)),
 	})
 	if err != nil {
-		l.dlp.logger.Debugf("supportTimeout raise detected, just do nothing for the key=%s, err=%s", l.key, err)
+		if errors.Is(err, errors.ErrNotExist) || errors.Is(err, errors.ErrConflict) {
+			l.dlp.logger.Debugf("supportTimeout raise detected, just do nothing for the key=%s, err=%s", l.key, err)
+			return
+		}
+		// the storage could not answer this time, the lock is probably still held: try again soon
+		l.dlp.logger.Warnf("supportTimeout could not extend the lease for the key=%s, will try again: %s", l.key, err)
+		retry := timeout.Call(func() { l.supportTimeout(ver) }, l.dlp.leaseTTL/8)
+		if !l.future.CompareAndSwap(future, retry) {
+			retry.Cancel()
+		}
 		return
 	}
 	newFuture := timeout.Call(func() { l.supportTimeout(r.Version) }, l.dlp.leaseTTL/2)
